@@ -205,7 +205,7 @@ def parse_output(out):
     return res
 
 
-def run(scratch, crate, harnesses, extra_flags=(), timeout=1800, jobs=8, mem_gb=24, log=None):
+def run(scratch, crate, harnesses, extra_flags=(), timeout=1800, jobs=8, mem_gb=14, log=None):
     """Run cargo kani for the listed harnesses (exact names) in one invocation. Returns (results, raw_output, wall_s, timed_out)."""
     cmd = ["cargo", "kani", "-p", crate, "--output-format", "terse"]
     if jobs and jobs > 1 and not any("concrete-playback" in f for f in extra_flags):
@@ -220,8 +220,9 @@ def run(scratch, crate, harnesses, extra_flags=(), timeout=1800, jobs=8, mem_gb=
     env.pop("RUSTFLAGS", None)
     t0 = time.time()
     # ulimit: unlimited stack (CBMC recursion), virtual memory cap as OOM guard
+    # ulimit -v is per process: each cbmc/kani-driver process gets at most mem_gb of address space (OOM guard)
     shell = "ulimit -s unlimited 2>/dev/null; ulimit -v %d 2>/dev/null; exec %s" % (
-        mem_gb * 1024 * 1024 * max(1, min(jobs, len(harnesses))), " ".join("'%s'" % c for c in cmd))
+        mem_gb * 1024 * 1024, " ".join("'%s'" % c for c in cmd))
     p = subprocess.Popen(["bash", "-c", shell], cwd=scratch, env=env, stdout=subprocess.PIPE, stderr=subprocess.STDOUT, text=True,
                          start_new_session=True)
     timed_out = False
